@@ -81,7 +81,11 @@ def cli_render(ctx, cfg):
     adj = {}
     for line in dot.splitlines():
         m = re.match(r'^(\d+) \[label="(.*)"\];$', line)
-        if m: nodes[int(m.group(1))] = m.group(2); continue
+        if m:
+            # a label is a quoted dot string: \" \\ and \n are escapes; an unescaped quote inside it means the string ended early
+            body = m.group(2)
+            if re.search(r'(?<!\\)(?:\\\\)*"', body): nodes[len(nodes) + 1000] = "<unescaped quote in label %r>" % body
+            nodes[int(m.group(1))] = re.sub(r'\\(.)', lambda k: {"n": "\n"}.get(k.group(1), k.group(1)), body); continue
         m = re.match(r'^(\d+) -> (\d+);$', line)
         if m: adj.setdefault(int(m.group(1)), []).append(int(m.group(2)))
     n = len(nodes)
@@ -106,6 +110,11 @@ def run(ctx, scale):
         eval_case(ctx, cfg)
     for i in range((12 if ctx.quick() else 150) * scale):
         cfg = G.gen_config(rng, with_ignores=False)
+        if i % 2 == 0:
+            # a directory whose name contains what ends or breaks a quoted dot string
+            odd = rng.choice(['q"r', "back\\slash", 'x"];\n1 -> 0;\n//', "two\nlines", 'tail\\'])
+            if odd not in [t["path"] for t in cfg["targets"]]:
+                cfg["targets"].append({"path": odd, "uses": [cfg["targets"][0]["path"]]}); ctx.count("label_needing_escapes")
         eval_case(ctx, cfg, via="cli", impl=cli_render(ctx, cfg))
     if not ctx.quick() or scale > 1:
         uni = ["a", "ab", "a/b", "a/bc", "b", "a/b/c", "ab/c", "x"]
